@@ -28,7 +28,7 @@ IUPAC_COMP.update({k.lower(): v.lower() for k, v in list(IUPAC_COMP.items())})
 
 
 def budget(tier):
-	return {'quick': 6000, 'thorough': 120000}[tier]
+	return {'quick': 10000, 'thorough': 120000}[tier]
 
 
 def iupac_rc(s):
